@@ -10,6 +10,20 @@ use std::cell::Cell;
 
 pub struct VerifAlloc;
 
+/// Called (if set) with the requested size when a request exceeds the per-thread cap, right
+/// before the allocation fails. Must be async-signal-safe in spirit: no allocation.
+pub static CAP_HOOK: std::sync::atomic::AtomicUsize = std::sync::atomic::AtomicUsize::new(0);
+
+#[inline]
+fn cap_exceeded(size: usize) {
+    let _ = CAP_HIT.try_with(|c| c.set(true));
+    let h = CAP_HOOK.load(std::sync::atomic::Ordering::Relaxed);
+    if h != 0 {
+        let f: fn(usize) = unsafe { std::mem::transmute(h) };
+        f(size);
+    }
+}
+
 thread_local! {
     static CUR: Cell<isize> = const { Cell::new(0) };
     static PEAK: Cell<isize> = const { Cell::new(0) };
@@ -50,7 +64,7 @@ unsafe impl GlobalAlloc for VerifAlloc {
     unsafe fn alloc(&self, layout: Layout) -> *mut u8 {
         let cap = REQ_CAP.try_with(|c| c.get()).unwrap_or(usize::MAX);
         if layout.size() > cap {
-            let _ = CAP_HIT.try_with(|c| c.set(true));
+            cap_exceeded(layout.size());
             return std::ptr::null_mut();
         }
         let p = System.alloc(layout);
@@ -67,7 +81,7 @@ unsafe impl GlobalAlloc for VerifAlloc {
     unsafe fn alloc_zeroed(&self, layout: Layout) -> *mut u8 {
         let cap = REQ_CAP.try_with(|c| c.get()).unwrap_or(usize::MAX);
         if layout.size() > cap {
-            let _ = CAP_HIT.try_with(|c| c.set(true));
+            cap_exceeded(layout.size());
             return std::ptr::null_mut();
         }
         let p = System.alloc_zeroed(layout);
@@ -85,7 +99,7 @@ unsafe impl GlobalAlloc for VerifAlloc {
     unsafe fn realloc(&self, ptr: *mut u8, layout: Layout, new_size: usize) -> *mut u8 {
         let cap = REQ_CAP.try_with(|c| c.get()).unwrap_or(usize::MAX);
         if new_size > cap {
-            let _ = CAP_HIT.try_with(|c| c.set(true));
+            cap_exceeded(new_size);
             return std::ptr::null_mut();
         }
         let p = System.realloc(ptr, layout, new_size);
